@@ -170,6 +170,7 @@ func runC02(c *Ctx) {
 	c.Floors["G"] = 20
 
 	voteSignBytesRules(c)
+	commitVoteRules(c)
 
 	// ---- Q: sweep every comparison involving TotalVotingPower() ---------------------------------
 	type want struct{ fn, class, x, recv, why string }
